@@ -177,7 +177,64 @@ func runBatch(q batchReq) ([]txRes, error) {
 		var gts []gTx
 		var txs []*types.Transaction
 		vexec.ResetFriends()
+		groupOf := map[int]int{} // tx position -> group id (members consecutive)
+		gid := 0
 		for i := 0; i < m; i++ {
+			if r.Chance(25) && i+4 < m+4 {
+				// a transaction group: a later member may write (and omit, or not own) a key that an earlier
+				// member of the same group already wrote
+				gid++
+				k := r.Range(2, 4)
+				var raw []*types.Transaction
+				var members []gTx
+				for j := 0; j < k; j++ {
+					g := genTx(r)
+					if j > 0 && r.Chance(60) {
+						prev := members[r.Intn(len(members))]
+						pk := prev.Keys[r.Intn(len(prev.Keys))]
+						nk := wkey{Key: pk.Key, Class: "rewrites-key-of-earlier-group-member", Friend: pk.Friend}
+						if r.Chance(50) {
+							nk.Omit = true
+						}
+						g.Keys = append(g.Keys, nk)
+						seen := map[string]bool{}
+						var ks []wkey
+						for x := len(g.Keys) - 1; x >= 0; x-- { // keep the rewritten key, drop an earlier duplicate
+							if !seen[g.Keys[x].Key] {
+								seen[g.Keys[x].Key] = true
+								ks = append([]wkey{g.Keys[x]}, ks...)
+							}
+						}
+						g.Keys = ks
+					}
+					p := &vexec.Program{Nonce: g.Nonce}
+					for _, kk := range g.Keys {
+						p.Ops = append(p.Ops, vexec.Op{Op: "sset", K: kk.Key, V: fmt.Sprintf("w%d.%d", done+i, j)})
+						if kk.Omit {
+							p.Omit = append(p.Omit, kk.Key)
+						}
+						if kk.Friend {
+							vexec.SetFriend(g.Exec, kk.Key, true)
+						}
+					}
+					members = append(members, g)
+					raw = append(raw, vexec.NewTx(env.Cfg, g.Exec, p, nil, 3000000))
+				}
+				grp, err := types.CreateTxGroup(raw, env.Cfg.GetMinTxFeeRate())
+				if err != nil {
+					continue
+				}
+				key := env.Keys[r.Intn(4)]
+				for j := range grp.Txs {
+					grp.SignN(j, types.SECP256K1, key)
+				}
+				for j, t := range grp.GetTxs() {
+					groupOf[len(txs)] = gid
+					gts = append(gts, members[j])
+					txs = append(txs, t)
+				}
+				continue
+			}
 			g := genTx(r)
 			p := &vexec.Program{Nonce: g.Nonce}
 			for _, k := range g.Keys {
@@ -196,9 +253,25 @@ func runBatch(q batchReq) ([]txRes, error) {
 		if err != nil {
 			return nil, fmt.Errorf("EventExecTxList: %v", err)
 		}
+		// a group succeeds only if every member is allowed
+		groupOK := map[int]bool{}
+		for i := range gts {
+			if id, ok := groupOf[i]; ok {
+				if _, seen := groupOK[id]; !seen {
+					groupOK[id] = true
+				}
+				if !expectOK(&gts[i]) {
+					groupOK[id] = false
+				}
+			}
+		}
 		for i, rc := range rs.Receipts {
 			g := gts[i]
 			res := txRes{Index: q.Base + done + i, Tx: g, Ty: rc.Ty, Want: expectOK(&g)}
+			if id, ok := groupOf[i]; ok {
+				res.Want = groupOK[id]
+				res.Classes = append(res.Classes, "group-member")
+			}
 			for _, k := range g.Keys {
 				c := k.Class
 				if k.Omit {
